@@ -67,12 +67,14 @@ def hard_module(S, p, nrect=1, fixed=False, flip=False):
     return info
 
 
-def terminal_module(S, p, center=True, fixed=False):
+def terminal_module(S, p, center=True, fixed=False, nrect=0):
     info = {"terminal": True}
     if fixed:
         info["fixed"] = True
     if center:
         info["center"] = [S.real(p + "cx"), S.real(p + "cy")]
+    if nrect:       # a pad with a physical size: accepted by the reader
+        info["rectangles"] = [sym_rect(S, f"{p}r{i}") for i in range(nrect)]
     return info
 
 
